@@ -797,6 +797,21 @@ func translateFunc(eng *Engine, fn *ssa.Function, ct *Contract) (t *fnTrans) {
 		t.assumeRaw(t.valueFacts(t.st, v))
 	}
 	t.assumeRaw(le("0", t.top(t.st)))
+	// package axioms (assumed facts about package-level state; listed in trusted_base)
+	for _, name := range eng.cs.Order {
+		ax := eng.cs.ByTarget[name]
+		if ax.Kind != "axiom" || ax.DefExpr == nil {
+			continue
+		}
+		axenv := t.specEnv(t.st, t.st)
+		if p := eng.pkgOf(ax); p != nil {
+			axenv.pkg = p
+		}
+		t.assumeRaw(axenv.evalBool(ax.DefExpr))
+		for _, e := range axenv.errs {
+			t.errorf("axiom %s: %s", name, e)
+		}
+	}
 	// preconditions
 	env := t.specEnv(t.st, t.st)
 	for _, cl := range ct.Requires {
@@ -1305,6 +1320,22 @@ func (t *fnTrans) locate(li *loopInfo, ins ssa.Instruction, heaps map[string]boo
 					}
 				}
 				okAll = false
+			case *ast.StarExpr:
+				if pid, ok := n.X.(*ast.Ident); ok {
+					if av := argOf(pid.Name); av != nil {
+						if g, isG := av.(*ssa.Global); isG {
+							pends = append(pends, pend{hs, t.eng.globalRef(g)})
+							continue
+						}
+					}
+				}
+				okAll = false
+			case *ast.Ident:
+				if o, isVar := t.eng.pkgOf(ct).Scope().Lookup(n.Name).(*types.Var); isVar {
+					pends = append(pends, pend{hs, t.eng.globalRefObj(o)})
+					continue
+				}
+				okAll = false
 			case *ast.SelectorExpr:
 				if pid, ok := n.X.(*ast.Ident); ok {
 					if av := argOf(pid.Name); av != nil {
@@ -1405,7 +1436,7 @@ func (t *fnTrans) havocLoop(li *loopInfo) {
 		old := t.heapGet(t.st, k, sortOf)
 		n := t.heapHavoc(t.st, k, sortOf)
 		ls := locs[k]
-		located := ls != nil && !ls.whole && (strings.HasPrefix(k, "E.") || strings.HasPrefix(k, "F."))
+		located := ls != nil && !ls.whole && (strings.HasPrefix(k, "E.") || strings.HasPrefix(k, "F.") || strings.HasPrefix(k, "C."))
 		if located {
 			var ex []string
 			seen := map[string]bool{}
